@@ -1,11 +1,12 @@
 """C13 -- payment quotes bound to signer and signed fields (specs/quote, driver drv_quote)."""
 import os
 from vcheck import *
+from areas import quoting_stage as quotingstage
 
 PROPS = ["C13"]
 META = {
     "C13": {
-        "engine": "quote",
+        "engine": "quote", "more_engines": ["quoting"],
         "level": "model_checking",
         "technique": "executable TLA+ specification of quote / proof verification over an ideal signature, of the expiry window and of the "
                      "history rule; TLC enumerates every subset of altered fields x key x signature x claimed identity, every proof "
@@ -21,7 +22,10 @@ META = {
                 "(QuoteHistory.tla): sequences of quotes of up to three peers, TLC-generated, crafted and random, are handed to the real QuoteVerification handler of a SwarmDriver -- singly and as "
                 "batches of up to four entries in one command (mixed peers, the same peer twice, a peer the node already considers bad in front) -- and "
                 "the retained quote / recorded issue after every command is judged for every entry (inconsistent with the retained quote => issue on record, never retained; the reference never moves back). "
-                "ProofOfPayment::has_expired is called on proofs with the expired quote in every position; the expiry edges are also probed at one second's distance from a now taken with nanoseconds.",
+                "ProofOfPayment::has_expired is called on proofs with the expired quote in every position; the expiry edges are also probed at one second's distance from a now taken with nanoseconds. "
+                "A further engine (specs/quoting, lib/areas/quoting_stage.py) follows the binding into the client: every TLC-enumerated environment of one real Network::get_store_quote_from_network call "
+                "(peers found, ignore set, per peer a good / forged / foreign / wrong-address quote, RecordExists, error, unexpected answer, silence) is run with real keys and real signed quotes, "
+                "and every (peer, quote) pair handed to the caller must verify for exactly that peer by the harness's own check (clause C13_ClientQuotesBound; the Quo_* clauses are printed as SPEC-DEVIATION only).",
         "note": "trusted: TLC; ed25519 (ideal-signature assumption: a signature verifies only for the key and message it was made with); the driver's "
                 "value tables (abstraction function); the wall clock moving forward by < 2 s during one call",
         "design_ref": "5 Area Quote",
@@ -153,6 +157,10 @@ def run(prop, tier, replay=None):
     v = Verdict(prop, tier, replaying=replay is not None)
     w = workdir(prop)
     thorough = tier == "thorough"
+    if replay and replay.get("area") == "quoting":
+        build(PACKAGES)
+        quotingstage.quoting_stage(v, w, False, replay)
+        return v.finish()
     if replay and replay.get("hist_scenario") is not None:
         build(PACKAGES)
         history_node(v, w, False, scenario=replay["hist_scenario"])
@@ -256,6 +264,8 @@ def run(prop, tier, replay=None):
         "hash(): equal hashes are required exactly for equal (signed fields, key bytes, signature bytes); the concatenation without length prefix "
         "lets a byte move between key and signature without changing the hash (reported as note HashKeySignatureBoundaryAlias; such a quote never verifies)",
     ]
+    if not replay and quotingstage.enabled():
+        quotingstage.quoting_stage(v, w, thorough, None)
     return v.finish()
 
 
